@@ -5,7 +5,6 @@ package client
 import (
 	"github.com/aws/aws-sdk-go-v2/aws"
 	"github.com/aws/aws-sdk-go-v2/service/dynamodb"
-	"github.com/aws/aws-sdk-go-v2/service/dynamodb/types"
 	"github.com/truora/minidyn/internal/nd"
 )
 
@@ -104,83 +103,140 @@ func vC03Attrs(name string, idxRange bool) map[string]string {
 	return attrs
 }
 
-// VerifC03Step: canonical state of n items on a hash-only table with one GSI (hash g, optional range h),
-// then one operation that can give an item an index key, change it, drop it, delete the item, clear the
-// table or create the index after the data; afterwards the index mirrors the base table.
+// VerifC03Step: canonical state of n items on a hash-only table with one GSI, then k operations, each of which
+// can give an item an index key, change it, drop it, delete the item, clear the table or (first) create the
+// index after the data; after every operation the index mirrors the base table. The GSI is either on the
+// non-key attributes (g[, h]) or on the table's own hash key p (so that every item is indexed).
 func VerifC03Step() {
-	n := nd.Param("n", 2)
+	n, k := nd.Param("n", 2), nd.Param("k", 1)
 	idxRange := nd.Choice("idxrange", 2) == 1
+	onKey := !idxRange && nd.Choice("index-on-table-key", 2) == 1
 	late := nd.Choice("index-created-late", 2) == 1
 	c := vClient(false)
-	h := ""
+	ih, ir := "g", ""
 	if idxRange {
-		h = "h"
+		ir = "h"
+	}
+	if onKey {
+		ih = "p"
+	}
+	indexed := func(attrs map[string]string) bool { return onKey || vIndexed(attrs, idxRange) }
+	mirror := func(m *vModel, id string) {
+		// the reference "has every index key attribute" depends on which attributes the index is on
+		mm := &vModel{}
+		for _, r := range m.rows {
+			attrs := map[string]string{}
+			for a, v := range r.attrs {
+				attrs[a] = v
+			}
+			if onKey {
+				attrs["g"] = "-" // marks the row as indexed for vC03Mirror; the value is not compared
+			}
+			mm.rows = append(mm.rows, vRow{k: r.k, attrs: attrs})
+		}
+		_ = indexed
+		if onKey {
+			vC03MirrorOnKey(c, m, id)
+			return
+		}
+		vC03Mirror(c, m, idxRange, id)
 	}
 	if !late {
-		nd.Assert(AddIndex(vCtx, c, vTbl, vIdx, "g", h) == nil, "C03-setup-addindex")
+		nd.Assert(AddIndex(vCtx, c, vTbl, vIdx, ih, ir) == nil, "C03-setup-addindex")
 	}
 	m := &vModel{}
 	for i := 0; i < n; i++ {
 		nm := "k" + string(rune('0'+i))
-		k := vKey{p: nd.StringN(nm+".p", 1)}
+		key := vKey{p: nd.StringN(nm+".p", 1)}
 		attrs := vC03Attrs(nm, idxRange)
-		// index key attribute values are non-empty strings (DynamoDB rejects empty index key values)
-		nd.Assert(vPut(c, m.full(k, attrs)) == nil, "C03-setup-put")
-		m.put(k, attrs)
+		nd.Assert(vPut(c, m.full(key, attrs)) == nil, "C03-setup-put")
+		m.put(key, attrs)
 	}
 	if late {
 		nd.Reach("index-created-after-data")
-		nd.Assert(AddIndex(vCtx, c, vTbl, vIdx, "g", h) == nil, "C03-late-addindex")
-		vC03Mirror(c, m, idxRange, "C03-backfill")
-		nd.Reach("end")
-		return
+		nd.Assert(AddIndex(vCtx, c, vTbl, vIdx, ih, ir) == nil, "C03-late-addindex")
+		mirror(m, "C03-backfill")
+	} else {
+		mirror(m, "C03-canon")
 	}
-	vC03Mirror(c, m, idxRange, "C03-canon")
-
-	k := vKey{p: nd.StringN("op.p", 1)}
-	old, existed := m.get(k)
-	switch nd.Choice("op", 5) {
-	case 0: // overwrite / insert with any index-key situation
-		nd.Reach("put")
-		attrs := vC03Attrs("op", idxRange)
-		nd.Assert(vPut(c, m.full(k, attrs)) == nil, "C03-put-noerr")
-		m.put(k, attrs)
-	case 1: // UpdateItem SET g = :x (enters the index late, or changes its index key)
-		nd.Reach("update-set")
-		x := nd.StringN("op.x", 1)
-		_, err := c.UpdateItem(vCtx, &dynamodb.UpdateItemInput{TableName: aws.String(vTbl), Key: k.item(false),
-			UpdateExpression: aws.String("SET g = :x"), ExpressionAttributeValues: vItem{":x": vS(x)}})
-		nd.Assert(err == nil, "C03-update-noerr")
-		na := map[string]string{}
-		for a, v := range old {
-			na[a] = v
-		}
-		na["g"] = x
-		m.put(k, na)
-	case 2: // UpdateItem REMOVE g (leaves the index)
-		nd.Reach("update-remove")
-		_, err := c.UpdateItem(vCtx, &dynamodb.UpdateItemInput{TableName: aws.String(vTbl), Key: k.item(false),
-			UpdateExpression: aws.String("REMOVE g")})
-		nd.Assert(err == nil, "C03-remove-noerr")
-		na := map[string]string{}
-		for a, v := range old {
-			if a != "g" {
+	for step := 0; step < k; step++ {
+		key := vKey{p: nd.StringN("op.p", 1)}
+		old, _ := m.get(key)
+		switch nd.Choice("op", 5) {
+		case 0: // overwrite / insert with any index-key situation
+			nd.Reach("put")
+			attrs := vC03Attrs("op", idxRange)
+			nd.Assert(vPut(c, m.full(key, attrs)) == nil, "C03-put-noerr")
+			m.put(key, attrs)
+		case 1: // UpdateItem SET g = :x (enters the index late, changes its index key, or creates the item)
+			nd.Reach("update-set")
+			x := nd.StringN("op.x", 1)
+			_, err := c.UpdateItem(vCtx, &dynamodb.UpdateItemInput{TableName: aws.String(vTbl), Key: key.item(false),
+				UpdateExpression: aws.String("SET g = :x"), ExpressionAttributeValues: vItem{":x": vS(x)}})
+			nd.Assert(err == nil, "C03-update-noerr")
+			na := map[string]string{}
+			for a, v := range old {
 				na[a] = v
 			}
+			na["g"] = x
+			m.put(key, na)
+		case 2: // UpdateItem REMOVE g (leaves the index)
+			nd.Reach("update-remove")
+			_, err := c.UpdateItem(vCtx, &dynamodb.UpdateItemInput{TableName: aws.String(vTbl), Key: key.item(false),
+				UpdateExpression: aws.String("REMOVE g")})
+			nd.Assert(err == nil, "C03-remove-noerr")
+			na := map[string]string{}
+			for a, v := range old {
+				if a != "g" {
+					na[a] = v
+				}
+			}
+			m.put(key, na)
+		case 3:
+			nd.Reach("delete")
+			_, err := c.DeleteItem(vCtx, &dynamodb.DeleteItemInput{TableName: aws.String(vTbl), Key: key.item(false)})
+			nd.Assert(err == nil, "C03-delete-noerr")
+			m.del(key)
+		case 4:
+			nd.Reach("clear")
+			nd.Assert(ClearTable(c, vTbl) == nil, "C03-clear-noerr")
+			m.rows = nil
 		}
-		m.put(k, na)
-	case 3:
-		nd.Reach("delete")
-		_, err := c.DeleteItem(vCtx, &dynamodb.DeleteItemInput{TableName: aws.String(vTbl), Key: k.item(false)})
-		nd.Assert(err == nil, "C03-delete-noerr")
-		m.del(k)
-	case 4:
-		nd.Reach("clear")
-		nd.Assert(ClearTable(c, vTbl) == nil, "C03-clear-noerr")
-		m.rows = nil
+		mirror(m, "C03-step")
 	}
-	_ = existed
-	_ = types.ReturnValueNone
-	vC03Mirror(c, m, idxRange, "C03-step")
 	nd.Reach("end")
+}
+
+// vC03MirrorOnKey: the index is on the table's own hash key, so it must list exactly the table's items.
+func vC03MirrorOnKey(c *Client, m *vModel, id string) {
+	out, err := c.Scan(vCtx, &dynamodb.ScanInput{TableName: aws.String(vTbl), IndexName: aws.String(vIdx)})
+	nd.Assert(err == nil, id+"-scan-noerr")
+	if err != nil {
+		return
+	}
+	nd.Assert(len(out.Items) == len(m.rows) && int(out.Count) == len(m.rows), id+"-index-scan-size")
+	for _, r := range m.rows {
+		n := 0
+		for _, it := range out.Items {
+			if p, ok := vGetS(it, "p"); ok && p == r.k.p {
+				n++
+				nd.Assert(vSameItem(it, m.full(r.k, r.attrs)), id+"-index-scan-current-values")
+			}
+		}
+		nd.Assert(n == 1, id+"-index-scan-has-item-once")
+		q, err := c.Query(vCtx, &dynamodb.QueryInput{TableName: aws.String(vTbl), IndexName: aws.String(vIdx),
+			KeyConditionExpression: aws.String("p = :p"), ExpressionAttributeValues: vItem{":p": vS(r.k.p)}})
+		nd.Assert(err == nil && len(q.Items) == 1, id+"-index-query-has-item")
+	}
+	d, err := c.DescribeTable(vCtx, &dynamodb.DescribeTableInput{TableName: aws.String(vTbl)})
+	nd.Assert(err == nil, id+"-describe-noerr")
+	if err == nil {
+		ok := false
+		for _, g := range d.Table.GlobalSecondaryIndexes {
+			if aws.ToString(g.IndexName) == vIdx {
+				ok = g.ItemCount != nil && int(*g.ItemCount) == len(m.rows)
+			}
+		}
+		nd.Assert(ok, id+"-describe-index-count")
+	}
 }
